@@ -65,6 +65,10 @@ type lexer struct {
 	token chan interface{}
 	done  chan struct{}
 
+	// faulted is set when the parser has reported an error. It is
+	// accessed only by the goroutine of the parser.
+	faulted bool
+
 	mu     sync.Mutex
 	err    error
 	cancel chan struct{}
@@ -393,6 +397,7 @@ func (l *lexer) Error(s string) {
 		s = s[15:]
 	}
 	l.err = ArithExprError{Msg: s}
+	l.faulted = true
 	l.stop()
 }
 
